@@ -197,7 +197,11 @@ pub fn parse<T: AsRef<Path>>(path: T) -> Result<Tbl, Error> {
     // Datos de elementos
     let mut elements: BTreeMap<String, Element> = BTreeMap::new();
     let mut idxelem: i32 = 0;
-    while let Some(line) = lines.next() {
+    while idxelem < numelements {
+        let line = match lines.next() {
+            Some(line) => line,
+            None => break,
+        };
         let name = line.trim_matches('"').trim();
         let values = lines.next()
             .ok_or_else(|| format_err!("Error al leer el archivo .tbl: no se ha encontrado la línea de propiedades del elemento {}", name))?;
@@ -219,7 +223,11 @@ pub fn parse<T: AsRef<Path>>(path: T) -> Result<Tbl, Error> {
     // Datos de espacios
     let mut spaces: BTreeMap<String, Space> = BTreeMap::new();
     let mut idxspc: i32 = 0;
-    while let Some(line) = lines.next() {
+    while idxspc < numspaces {
+        let line = match lines.next() {
+            Some(line) => line,
+            None => break,
+        };
         let name = line.trim_matches('"');
         let values = lines.next().ok_or_else(|| {
             format_err!(
